@@ -1,8 +1,12 @@
 import SophiaProofs.Props.C12
 open SophiaProofs.C12
 #print axioms unique_parent_lookup_is_get
+#print axioms constants_as_in_source
+#print axioms no_panic
 #print axioms no_panic_partial
 #print axioms no_panic_nolist
+#print axioms no_panic_needs_absolute_iris
+#print axioms suppressed_only_list_cells
 #print axioms dropped_iff_not_jsonld
 #print axioms isJsonLd_spec
 #print axioms roundtrip_nolist
@@ -12,5 +16,7 @@ open SophiaProofs.C12
 #print axioms roundtrip_refuted_cross_graph
 #print axioms roundtrip_refuted_self_list
 #print axioms roundtrip_refuted_typed_list
+#print axioms roundtrip_refuted_i18n
+#print axioms roundtrip_refuted_compound
 #print axioms suppressed_compensated_refuted
 #print axioms roundtrip_all_refuted
